@@ -64,6 +64,21 @@ Print Assumptions c16_ack_own.
 Print Assumptions c16_reply_own.
 Print Assumptions c16_error_isolated.
 
+(* The freshness hypothesis is needed: when two callers draw the SAME call id (what a call id
+   generator that is not safe for concurrent use produces), the second one is refused with "already
+   exist call id" although the broker acknowledged that id - its status is not what its one-caller
+   specification says.  The harness therefore checks the premise on the implementation: the call
+   ids seen by the broker must be pairwise distinct (c16_ok, first conjunct; id-burst cases). *)
+Theorem c16_own_needs_distinct_ids :
+  exists evs c st, espec c evs = Some st /\ estatus_of (erun einit evs) (N.of_nat c) <> Some st /\
+                   ~ NoDup (call_ids evs).
+Proof.
+  exists [ECall KCall 7; ECall KCall 7; EAck 7 0 1; EWake 0; EWake 1], 1%nat, (EDone RAcked).
+  destruct own_needs_distinct_ids as [H1 [H2 H3]]. split; [exact H1|]. split; [|exact H3].
+  cbn [N.of_nat]. change (N.pos (Pos.of_succ_nat 0)) with 1. rewrite H2. discriminate.
+Qed.
+Print Assumptions c16_own_needs_distinct_ids.
+
 (* Inboxes: as long as no more than 1024 calls (replies) ever arrived, what ReceiveCall
    (ReceiveReplyCall) has handed out followed by what is still queued is exactly what arrived: each
    once, unmodified, in arrival order.  No freshness hypothesis. *)
